@@ -280,22 +280,26 @@ def wrap(e):
     return pt.Seq(pt.Pop(e), I(1))
 
 
-def confused(thunk, k):
+def confused(thunk, k, kind="other"):
     """build the entry with its k-th leaf (in construction order) replaced by a leaf of the OTHER stack type:
-    an Int where a Bytes literal stood and the reverse.  -> (expr, number of leaves seen); raises what the
-    constructor raises"""
+    an Int where a Bytes literal stood and the reverse (kind 'other'), or by an expression that yields NO value
+    (kind 'none').  -> (expr, number of leaves seen); raises what the constructor raises"""
     global I, By
     cnt = [0]
 
     def I2(*a, **kw):
         i = cnt[0]
         cnt[0] += 1
-        return pt.Bytes("base16", "0x0102") if i == k else pt.Int(*a, **kw)
+        if i == k:
+            return pt.Bytes("base16", "0x0102") if kind == "other" else pt.Pop(pt.Int(3))
+        return pt.Int(*a, **kw)
 
     def By2(*a, **kw):
         i = cnt[0]
         cnt[0] += 1
-        return pt.Int(7) if i == k else pt.Bytes(*a, **kw)
+        if i == k:
+            return pt.Int(7) if kind == "other" else pt.Pop(pt.Int(3))
+        return pt.Bytes(*a, **kw)
     old = (I, By)
     I, By = I2, By2
     try:
